@@ -409,6 +409,9 @@ def check_lcmv(run, A):
 
 def check(run):
     A = run.A
+    # stable_solve is what Souden MVDR / WMWF invert with: its literal axes count from the right like those of the beamforming functions (shared with C13)
+    from . import c13 as _c13
+    _c13.check_ell(run, A, only=('pb_bss.math.solve',))
     from ..opt import check_axisless_squeeze
     check_axisless_squeeze(run, A, ('pb_bss.extraction.beamformer', 'pb_bss.math.solve'))
     run.explanation = (
